@@ -182,7 +182,10 @@ int tlcp_do_connect(TLS_CONNECT *conn)
 	sm3_init(&sm3_ctx);
 
 	// send ClientHello
-	tls_random_generate(client_random);
+	if (tls_random_generate(client_random) != 1) {
+		error_print();
+		goto end;
+	}
 	if (tls_record_set_handshake_client_hello(record, &recordlen,
 		TLS_protocol_tlcp, client_random, NULL, 0,
 		tlcp_ciphers, tlcp_ciphers_count, NULL, 0) != 1) {
@@ -681,7 +684,11 @@ int tlcp_do_accept(TLS_CONNECT *conn)
 
 	// send ServerHello
 	tls_trace("send ServerHello\n");
-	tls_random_generate(server_random);
+	if (tls_random_generate(server_random) != 1) {
+		error_print();
+		tls_send_alert(conn, TLS_alert_internal_error);
+		goto end;
+	}
 	if (tls_record_set_handshake_server_hello(record, &recordlen,
 		TLS_protocol_tlcp, server_random, NULL, 0,
 		conn->cipher_suite, NULL, 0) != 1) {
